@@ -376,4 +376,524 @@ theorem digitize_sqrt_eq (d : Digitizer) (r : Rat) (hr : 0 ≤ r) :
   · exact Val.gtB_sqrt_eq r hr x
   · exact Val.geB_sqrt_eq r hr x
 
+/-! ### `Digitizer.make` with clipping and `from_strings` -/
+
+theorem setHead_length (x : X) (l : List X) : (setHead x l).length = l.length := by
+  cases l <;> rfl
+
+theorem setLast_length (x : X) (l : List X) : (setLast x l).length = l.length := by
+  induction l with
+  | nil => rfl
+  | cons a l ih =>
+    cases l with
+    | nil => rfl
+    | cons b r => simp only [setLast, List.length_cons] at *; omega
+
+theorem setHead_zero (x : X) (l : List X) (h : l ≠ []) : (setHead x l)[0]? = some x := by
+  cases l with
+  | nil => exact absurd rfl h
+  | cons a l => rfl
+
+theorem setHead_succ (x : X) (l : List X) (i : Nat) : (setHead x l)[i + 1]? = l[i + 1]? := by
+  cases l <;> rfl
+
+theorem setLast_before (x : X) (l : List X) (i : Nat) (h : i + 1 < l.length) : (setLast x l)[i]? = l[i]? := by
+  induction l generalizing i with
+  | nil => simp at h
+  | cons a l ih =>
+    cases l with
+    | nil => simp at h
+    | cons b r =>
+      cases i with
+      | zero => rfl
+      | succ i =>
+        simp only [setLast, List.getElem?_cons_succ]
+        exact ih i (by simp at h ⊢; omega)
+
+theorem setLast_last (x : X) (l : List X) (h : l ≠ []) : (setLast x l)[l.length - 1]? = some x := by
+  induction l with
+  | nil => exact absurd rfl h
+  | cons a l ih =>
+    cases l with
+    | nil => rfl
+    | cons b r =>
+      have := ih (by simp)
+      simp only [setLast, List.length_cons] at *
+      have e : r.length + 1 + 1 - 1 = (r.length + 1 - 1) + 1 := by omega
+      rw [e, List.getElem?_cons_succ]; exact this
+
+/-- Boundaries after clipping both ends. -/
+def clipped (bounds : List X) : List X := setLast .pinf (setHead .ninf bounds)
+
+theorem clipped_length (b : List X) : (clipped b).length = b.length := by
+  unfold clipped; rw [setLast_length, setHead_length]
+
+theorem clipped_zero (b : List X) (h : 2 ≤ b.length) : (clipped b)[0]? = some .ninf := by
+  unfold clipped
+  rw [setLast_before _ _ 0 (by rw [setHead_length]; omega)]
+  exact setHead_zero _ _ (by intro hb; rw [hb] at h; simp at h)
+
+theorem clipped_last (b : List X) (h : 2 ≤ b.length) : (clipped b)[b.length - 1]? = some .pinf := by
+  unfold clipped
+  have := setLast_last .pinf (setHead .ninf b) (by intro hb; have := setHead_length .ninf b; rw [hb] at this; simp at this; omega)
+  rw [setHead_length] at this; exact this
+
+theorem clipped_mid (b : List X) (k : Nat) (h0 : 0 < k) (h1 : k + 1 < b.length) : (clipped b)[k]? = b[k]? := by
+  unfold clipped
+  rw [setLast_before _ _ k (by rw [setHead_length]; exact h1)]
+  obtain ⟨k', rfl⟩ : ∃ k', k = k' + 1 := ⟨k - 1, by omega⟩
+  exact setHead_succ _ _ _
+
+theorem make_clip (bounds : List X) (r : Bool) (d : Digitizer) (h2 : 2 ≤ bounds.length)
+    (h : Digitizer.make bounds (true, true) r = some d) :
+    d.WF ∧ d.right = r ∧ d.boundaries = clipped bounds := by
+  unfold Digitizer.make at h
+  cases bounds with
+  | nil => simp at h2
+  | cons b0 rest =>
+    simp only [if_true] at h
+    split at h
+    · rename_i hm
+      cases h
+      refine ⟨⟨hm, ?_, ?_⟩, rfl, rfl⟩
+      · rw [List.head?_eq_getElem?]; exact clipped_zero _ h2
+      · rw [List.getLast?_eq_getElem?]
+        have := clipped_last (b0 :: rest) h2
+        have hl := clipped_length (b0 :: rest)
+        unfold clipped at this hl
+        rw [hl]; exact this
+    · cases h
+
+/-- Facts about a list of abutting interval labels. -/
+theorem abut_get (ivs : List Interval) (h : abut ivs = true) (k : Nat) (a b : Interval)
+    (ha : ivs[k]? = some a) (hb : ivs[k + 1]? = some b) : a.hi = b.lo := by
+  induction ivs generalizing k with
+  | nil => simp at ha
+  | cons i0 l ih =>
+    cases l with
+    | nil => simp at hb
+    | cons i1 r =>
+      simp only [abut, Bool.and_eq_true, beq_iff_eq] at h
+      cases k with
+      | zero => simp at ha hb; subst ha; subst hb; exact h.1
+      | succ k => simp at ha hb; exact ih h.2 k (by simpa using ha) (by simpa using hb)
+
+/-- The raw boundary list `from_strings` hands to the constructor. -/
+def rawBounds (ivs : List Interval) (l : Interval) : List X := ivs.map (·.lo) ++ [l.hi]
+
+theorem rawBounds_length (ivs : List Interval) (l : Interval) : (rawBounds ivs l).length = ivs.length + 1 := by
+  simp [rawBounds]
+
+theorem rawBounds_lo (ivs : List Interval) (l : Interval) (k : Nat) (iv : Interval) (h : ivs[k]? = some iv) :
+    (rawBounds ivs l)[k]? = some iv.lo := by
+  unfold rawBounds
+  have hk : k < ivs.length := by
+    by_contra hc; rw [List.getElem?_eq_none (by omega)] at h; cases h
+  rw [List.getElem?_append_left (by simpa using hk)]
+  simp [h]
+
+theorem fromIntervals_some (ivs : List Interval) (d : Digitizer) (h : Digitizer.fromIntervals ivs = some d) :
+    ∃ i0 l, ivs.head? = some i0 ∧ ivs.getLast? = some l ∧ abut ivs = true ∧
+      d.WF ∧ d.right = i0.right ∧ d.boundaries = clipped (rawBounds ivs l) := by
+  unfold Digitizer.fromIntervals at h
+  cases ivs with
+  | nil => cases h
+  | cons i0 rest =>
+    simp only at h
+    split at h
+    · rename_i hc
+      simp only [Bool.and_eq_true] at hc
+      split at h
+      · rename_i l hl
+        have := make_clip _ _ _ (by simp) h
+        exact ⟨i0, l, rfl, hl, hc.2, this.1, this.2.1, this.2.2⟩
+      · cases h
+    · cases h
+
+theorem fromIntervals_nbins (ivs : List Interval) (d : Digitizer) (h : Digitizer.fromIntervals ivs = some d) :
+    d.nbins = ivs.length := by
+  obtain ⟨i0, l, _, _, _, _, _, hb⟩ := fromIntervals_some ivs d h
+  unfold Digitizer.nbins
+  rw [hb, clipped_length, rawBounds_length]; omega
+
+/-- Lower boundary of bin `k`: `-inf` for the first bin, the declared lower bound otherwise. -/
+theorem fromIntervals_lower (ivs : List Interval) (d : Digitizer) (h : Digitizer.fromIntervals ivs = some d)
+    (k : Nat) (iv : Interval) (hk : ivs[k]? = some iv) :
+    d.boundaries[k]? = some (if k = 0 then .ninf else iv.lo) := by
+  obtain ⟨i0, l, _, _, _, _, _, hb⟩ := fromIntervals_some ivs d h
+  have hkl : k < ivs.length := by
+    by_contra hc; rw [List.getElem?_eq_none (by omega)] at hk; cases hk
+  rw [hb]
+  by_cases h0 : k = 0
+  · subst h0; simp only [if_true]
+    exact clipped_zero _ (by rw [rawBounds_length]; omega)
+  · simp only [h0, if_false]
+    rw [clipped_mid _ k (by omega) (by rw [rawBounds_length]; omega)]
+    exact rawBounds_lo ivs l k iv hk
+
+/-- Upper boundary of bin `k`: `+inf` for the last bin, the declared upper bound otherwise. -/
+theorem fromIntervals_upper (ivs : List Interval) (d : Digitizer) (h : Digitizer.fromIntervals ivs = some d)
+    (k : Nat) (iv : Interval) (hk : ivs[k]? = some iv) :
+    d.boundaries[k + 1]? = some (if k + 1 = ivs.length then .pinf else iv.hi) := by
+  obtain ⟨i0, l, _, _, hab, _, _, hb⟩ := fromIntervals_some ivs d h
+  have hkl : k < ivs.length := by
+    by_contra hc; rw [List.getElem?_eq_none (by omega)] at hk; cases hk
+  rw [hb]
+  by_cases h1 : k + 1 = ivs.length
+  · simp only [h1, if_true]
+    have := clipped_last (rawBounds ivs l) (by rw [rawBounds_length]; omega)
+    rw [rawBounds_length] at this
+    have e : ivs.length + 1 - 1 = ivs.length := by omega
+    rw [e] at this; exact this
+  · simp only [h1, if_false]
+    rw [clipped_mid _ (k + 1) (by omega) (by rw [rawBounds_length]; omega)]
+    have hk1 : k + 1 < ivs.length := by omega
+    have hnext : ivs[k + 1]? = some ivs[k + 1] := List.getElem?_eq_getElem hk1
+    rw [rawBounds_lo ivs l (k + 1) _ hnext, abut_get ivs hab k iv _ hk hnext]
+
+/-- `scanPred` on plain values, spelled out. -/
+theorem scanPred_x (d : Digitizer) (v b : X) :
+    scanPred d (.x v) b = if d.right then X.lt b v else X.le b v := by
+  unfold scanPred; split <;> rfl
+
+/-- **Soundness and completeness of the checker**: bin `i` is accepted for `v` exactly when it is
+the bin `digitize` returns. -/
+theorem binOK_iff_digitize (ivs : List Interval) (d : Digitizer) (h : Digitizer.fromIntervals ivs = some d)
+    (v : X) (hv : v.isFin = true) (i : Int) :
+    binOK ivs i v = true ↔ digitize d (.x v) = i := by
+  obtain ⟨i0, l, hhead, _, _, hwf, hright, _⟩ := fromIntervals_some ivs d h
+  have hn := fromIntervals_nbins ivs d h
+  have hfin : (Val.x v).finite = true := hv
+  cases ivs with
+  | nil => simp at hhead
+  | cons j0 rest =>
+    simp only [List.head?_cons, Option.some.injEq] at hhead
+    subst hhead
+    constructor
+    · intro hb
+      unfold binOK at hb
+      simp only [Bool.and_eq_true, decide_eq_true_eq] at hb
+      obtain ⟨⟨hi0, hi1⟩, hb⟩ := hb
+      obtain ⟨k, rfl⟩ : ∃ k : Nat, i = k := ⟨i.toNat, by omega⟩
+      have hk : k < (j0 :: rest).length := by exact_mod_cast hi1
+      simp only [Int.toNat_natCast] at hb
+      rw [List.getElem?_eq_getElem hk] at hb
+      simp only [Bool.and_eq_true, Bool.or_eq_true, beq_iff_eq] at hb
+      have hlo := fromIntervals_lower _ d h k _ (List.getElem?_eq_getElem hk)
+      have hhi := fromIntervals_upper _ d h k _ (List.getElem?_eq_getElem hk)
+      apply digitize_unique_aux d hwf (.x v) k _ _ hlo hhi
+      · by_cases hk0 : k = 0
+        · simp only [hk0, if_true]; exact scanPred_ninf d _ hfin
+        · simp only [hk0, if_false]
+          rw [scanPred_x, hright]
+          rcases hb.1 with h0 | h0
+          · exact absurd (by exact_mod_cast h0) hk0
+          · exact h0
+      · by_cases hk1 : k + 1 = (j0 :: rest).length
+        · simp only [hk1, if_true]; exact scanPred_pinf d _ hfin
+        · simp only [hk1, if_false]
+          rw [scanPred_x, hright]
+          rcases hb.2 with h1 | h1
+          · exact absurd (by exact_mod_cast h1) hk1
+          · revert h1; cases j0.right <;> simp [X.le]
+    · intro hd
+      obtain ⟨k, lo, hi, hk, hkn, hlo, hhi, h1, h2⟩ := digitize_spec_aux d hwf (.x v) hfin
+      rw [hd] at hk; subst hk
+      rw [hn] at hkn
+      have hlo' := fromIntervals_lower _ d h k _ (List.getElem?_eq_getElem hkn)
+      have hhi' := fromIntervals_upper _ d h k _ (List.getElem?_eq_getElem hkn)
+      rw [hlo] at hlo'; rw [hhi] at hhi'
+      cases hlo'; cases hhi'
+      unfold binOK
+      simp only [Bool.and_eq_true, decide_eq_true_eq, Int.toNat_natCast, List.getElem?_eq_getElem hkn,
+        Bool.or_eq_true, beq_iff_eq]
+      refine ⟨⟨by omega, by exact_mod_cast hkn⟩, ?_, ?_⟩
+      · by_cases hk0 : k = 0
+        · left; exact_mod_cast hk0
+        · right
+          simp only [hk0, if_false] at h1
+          rw [scanPred_x, hright] at h1; exact h1
+      · by_cases hk1 : k + 1 = (j0 :: rest).length
+        · left; exact_mod_cast hk1
+        · right
+          simp only [hk1, if_false] at h2
+          rw [scanPred_x, hright] at h2
+          revert h2; cases j0.right <;> simp [X.le]
+
+/-! ### `allSome` / `sumOpt` -/
+
+theorem allSome_map_some {α} (l : List α) : allSome (l.map some) = some l := by
+  induction l with
+  | nil => rfl
+  | cons a l ih => simp [allSome, ih]
+
+theorem allSome_eq_some {α} (l : List (Option α)) (r : List α) (h : allSome l = some r) : l = r.map some := by
+  induction l generalizing r with
+  | nil => simp [allSome] at h; subst h; rfl
+  | cons a l ih =>
+    cases a with
+    | none => simp [allSome] at h
+    | some a =>
+      simp only [allSome, Option.map_eq_some_iff] at h
+      obtain ⟨r', hr', rfl⟩ := h
+      simp [ih r' hr']
+
+theorem allSome_length {α} (l : List (Option α)) (r : List α) (h : allSome l = some r) : r.length = l.length := by
+  rw [allSome_eq_some l r h]; simp
+
+theorem allSome_get {α β} (l : List α) (g : α → Option β) (r : List β) (h : allSome (l.map g) = some r)
+    (i : Nat) (hi : i < l.length) : ∃ hr : i < r.length, g l[i] = some r[i] := by
+  have hl := allSome_length _ _ h
+  have he := allSome_eq_some _ _ h
+  simp at hl
+  refine ⟨by omega, ?_⟩
+  have : (l.map g)[i]? = (r.map some)[i]? := by rw [he]
+  simp [List.getElem?_eq_getElem hi, List.getElem?_eq_getElem (show i < r.length by omega)] at this
+  exact this
+
+theorem allSome_congr {α β} (l : List α) (f g : α → Option β) (h : ∀ x ∈ l, f x = g x) :
+    allSome (l.map f) = allSome (l.map g) := by
+  rw [List.map_congr_left h]
+
+theorem sumOpt_congr {α} (l : List α) (f g : α → Option Rat) (h : ∀ x ∈ l, f x = g x) :
+    sumOpt (l.map f) = sumOpt (l.map g) := by
+  rw [List.map_congr_left h]
+
+theorem sumOpt_const {α} (l : List α) (c : Rat) : sumOpt (l.map fun _ => some c) = some ((l.length : Rat) * c) := by
+  induction l with
+  | nil => simp [sumOpt]
+  | cons a l ih =>
+    simp only [List.map_cons, sumOpt, ih, Option.map_some, List.length_cons]
+    congr 1; push_cast; ring
+
+theorem sumOpt_le_const {α} (l : List α) (f : α → Option Rat) (M s : Rat)
+    (hb : ∀ x ∈ l, ∀ c, f x = some c → c ≤ M) (h : sumOpt (l.map f) = some s) : s ≤ (l.length : Rat) * M := by
+  induction l generalizing s with
+  | nil => simp [sumOpt] at h; subst h; simp
+  | cons a l ih =>
+    simp only [List.map_cons] at h
+    cases hfa : f a with
+    | none => rw [hfa] at h; simp [sumOpt] at h
+    | some c =>
+      rw [hfa] at h
+      simp only [sumOpt, Option.map_eq_some_iff] at h
+      obtain ⟨s', hs', rfl⟩ := h
+      have h1 := ih s' (fun x hx c hc => hb x (by simp [hx]) c hc) hs'
+      have h2 := hb a (by simp) c hfa
+      simp only [List.length_cons]; push_cast; linarith
+
+theorem sumOpt_le_sumOpt {α} (l : List α) (f g : α → Option Rat) (s s' : Rat)
+    (hb : ∀ x ∈ l, ∀ a b, f x = some a → g x = some b → a ≤ b)
+    (h : sumOpt (l.map f) = some s) (h' : sumOpt (l.map g) = some s') : s ≤ s' := by
+  induction l generalizing s s' with
+  | nil => simp [sumOpt] at h h'; subst h; subst h'; exact le_refl _
+  | cons a l ih =>
+    simp only [List.map_cons] at h h'
+    cases hfa : f a with
+    | none => rw [hfa] at h; simp [sumOpt] at h
+    | some c =>
+      cases hga : g a with
+      | none => rw [hga] at h'; simp [sumOpt] at h'
+      | some c' =>
+        rw [hfa] at h; rw [hga] at h'
+        simp only [sumOpt, Option.map_eq_some_iff] at h h'
+        obtain ⟨t, ht, rfl⟩ := h
+        obtain ⟨t', ht', rfl⟩ := h'
+        have h1 := ih t t' (fun x hx a b ha hb' => hb x (by simp [hx]) a b ha hb') ht ht'
+        have h2 := hb a (by simp) c c' hfa hga
+        linarith
+
+theorem sumOpt_pos {α} (l : List α) (g : α → Option Rat) (s : Rat) (hne : l ≠ [])
+    (hp : ∀ x ∈ l, ∀ b, g x = some b → 0 < b) (h : sumOpt (l.map g) = some s) : 0 < s := by
+  induction l generalizing s with
+  | nil => exact absurd rfl hne
+  | cons a l ih =>
+    simp only [List.map_cons] at h
+    cases hga : g a with
+    | none => rw [hga] at h; simp [sumOpt] at h
+    | some c =>
+      rw [hga] at h
+      simp only [sumOpt, Option.map_eq_some_iff] at h
+      obtain ⟨t, ht, rfl⟩ := h
+      have hc := hp a (by simp) c hga
+      by_cases hl : l = []
+      · subst hl; simp [sumOpt] at ht; subst ht; linarith
+      · have := ih t hl (fun x hx b hb => hp x (by simp [hx]) b hb) ht
+        linarith
+
+/-- Summing over the matches is summing over the query's points. -/
+theorem allSome_bind_sumOpt {α β} (l : List α) (g : α → Option β) (h : β → Option Rat) :
+    (allSome (l.map g)).bind (fun r => sumOpt (r.map h)) = sumOpt (l.map fun x => (g x).bind h) := by
+  induction l with
+  | nil => rfl
+  | cons a l ih =>
+    simp only [List.map_cons]
+    cases hga : g a with
+    | none => simp [allSome, sumOpt]
+    | some y =>
+      simp only [allSome, Option.bind_some]
+      cases hy : h y with
+      | none =>
+        simp only [sumOpt]
+        cases allSome (l.map g) <;> simp [sumOpt, hy]
+      | some c =>
+        simp only [sumOpt, ← ih]
+        cases allSome (l.map g) <;> simp [sumOpt, hy]
+
+theorem pairRaw_eq (fn : ScoreFn) (cfg : Cfg) (q t : Cloud) :
+    pairRaw fn cfg q t = sumOpt (q.map fun p => (matchPoint t cfg.bound p).bind (pointScore fn cfg.useAlpha)) := by
+  unfold pairRaw distDots rawScore
+  rw [← allSome_bind_sumOpt]
+  cases allSome (q.map (matchPoint t cfg.bound)) <;> rfl
+
+/-! ### Nearest neighbour -/
+
+theorem V3.d2_nonneg (a b : V3) : 0 ≤ a.d2 b := by
+  unfold V3.d2 V3.dot V3.sub
+  simp only
+  nlinarith [mul_self_nonneg (a.x - b.x), mul_self_nonneg (a.y - b.y), mul_self_nonneg (a.z - b.z)]
+
+theorem V3.d2_self (a : V3) : a.d2 a = 0 := by
+  unfold V3.d2 V3.dot V3.sub; simp
+
+theorem V3.eq_of_d2_zero (a b : V3) (h : a.d2 b = 0) : a = b := by
+  unfold V3.d2 V3.dot V3.sub at h
+  simp only at h
+  have hx : (a.x - b.x) * (a.x - b.x) = 0 := by
+    nlinarith [mul_self_nonneg (a.x - b.x), mul_self_nonneg (a.y - b.y), mul_self_nonneg (a.z - b.z)]
+  have hy : (a.y - b.y) * (a.y - b.y) = 0 := by
+    nlinarith [mul_self_nonneg (a.x - b.x), mul_self_nonneg (a.y - b.y), mul_self_nonneg (a.z - b.z)]
+  have hz : (a.z - b.z) * (a.z - b.z) = 0 := by
+    nlinarith [mul_self_nonneg (a.x - b.x), mul_self_nonneg (a.y - b.y), mul_self_nonneg (a.z - b.z)]
+  have ex : a.x = b.x := by have := mul_self_eq_zero.mp hx; linarith
+  have ey : a.y = b.y := by have := mul_self_eq_zero.mp hy; linarith
+  have ez : a.z = b.z := by have := mul_self_eq_zero.mp hz; linarith
+  cases a; cases b; simp_all
+
+/-- The scan returns either the incoming best or a later element's index and squared distance; its
+distance is minimal over the incoming best and the scanned elements. -/
+theorem nearestAux_spec (p : V3) (l : List Pt) (i : Nat) (best : Nat × Rat) :
+    ((nearestAux p l i best = best) ∨
+      ∃ k, ∃ h : k < l.length, nearestAux p l i best = (i + k, p.d2 l[k].p)) ∧
+    (nearestAux p l i best).2 ≤ best.2 ∧ ∀ x ∈ l, (nearestAux p l i best).2 ≤ p.d2 x.p := by
+  induction l generalizing i best with
+  | nil => simp [nearestAux]
+  | cons t r ih =>
+    simp only [nearestAux]
+    by_cases hd : p.d2 t.p < best.2
+    · simp only [hd, if_true]
+      obtain ⟨h1, h2, h3⟩ := ih (i + 1) (i, p.d2 t.p)
+      refine ⟨Or.inr ?_, ?_, ?_⟩
+      · rcases h1 with h1 | ⟨k, hk, h1⟩
+        · exact ⟨0, by simp, by simp [h1]⟩
+        · exact ⟨k + 1, by simp; omega, by rw [h1]; simp; omega⟩
+      · exact le_trans h2 (le_of_lt hd)
+      · intro x hx
+        simp only [List.mem_cons] at hx
+        rcases hx with rfl | hx
+        · exact h2
+        · exact h3 x hx
+    · simp only [hd, if_false]
+      obtain ⟨h1, h2, h3⟩ := ih (i + 1) best
+      refine ⟨?_, h2, ?_⟩
+      · rcases h1 with h1 | ⟨k, hk, h1⟩
+        · exact Or.inl h1
+        · exact Or.inr ⟨k + 1, by simp; omega, by rw [h1]; simp; omega⟩
+      · intro x hx
+        simp only [List.mem_cons] at hx
+        rcases hx with rfl | hx
+        · exact le_trans h2 (not_lt.mp hd)
+        · exact h3 x hx
+
+theorem nearest_spec (t : Cloud) (p : V3) (j : Nat) (d : Rat) (h : nearest t p = some (j, d)) :
+    ∃ hj : j < t.length, d = p.d2 t[j].p ∧ ∀ x ∈ t, d ≤ p.d2 x.p := by
+  cases t with
+  | nil => simp [nearest] at h
+  | cons t0 r =>
+    simp only [nearest, Option.some.injEq] at h
+    obtain ⟨h1, h2, h3⟩ := nearestAux_spec p r 1 (0, p.d2 t0.p)
+    rw [h] at h1 h2 h3
+    simp only at h2 h3
+    rcases h1 with h1 | ⟨k, hk, h1⟩
+    · simp only [Prod.mk.injEq] at h1
+      obtain ⟨rfl, rfl⟩ := h1
+      refine ⟨by simp, by simp, ?_⟩
+      intro x hx
+      simp only [List.mem_cons] at hx
+      rcases hx with rfl | hx
+      · exact le_refl _
+      · exact h3 x hx
+    · simp only [Prod.mk.injEq] at h1
+      obtain ⟨rfl, rfl⟩ := h1
+      refine ⟨by simp; omega, ?_, ?_⟩
+      · have : (t0 :: r)[1 + k] = r[k] := by
+          have e : 1 + k = k + 1 := by omega
+          simp [e]
+        rw [this]
+      · intro x hx
+        simp only [List.mem_cons] at hx
+        rcases hx with rfl | hx
+        · exact h2
+        · exact h3 x hx
+
+theorem nearest_isSome (t : Cloud) (p : V3) (h : t ≠ []) : ∃ j d, nearest t p = some (j, d) := by
+  cases t with
+  | nil => exact absurd rfl h
+  | cons t0 r => exact ⟨_, _, rfl⟩
+
+theorem nodup_map_inj {α β} (f : α → β) (l : List α) (h : (l.map f).Nodup) (a b : α) (ha : a ∈ l) (hb : b ∈ l)
+    (hf : f a = f b) : a = b := by
+  induction l with
+  | nil => simp at ha
+  | cons x l ih =>
+    simp only [List.map_cons, List.nodup_cons, List.mem_map, not_exists, not_and] at h
+    simp only [List.mem_cons] at ha hb
+    rcases ha with rfl | ha <;> rcases hb with rfl | hb
+    · rfl
+    · exact absurd hf.symm (h.1 b hb)
+    · exact absurd hf (h.1 a ha)
+    · exact ih h.2 ha hb
+
+/-- A point of a cloud with pairwise distinct positions is its own nearest neighbour, at distance 0. -/
+theorem nearest_self (c : Cloud) (hnd : (c.map (·.p)).Nodup) (p : Pt) (hp : p ∈ c) :
+    ∃ j, ∃ hj : j < c.length, nearest c p.p = some (j, 0) ∧ c[j] = p := by
+  obtain ⟨j, d, hjd⟩ := nearest_isSome c p.p (by intro h; rw [h] at hp; simp at hp)
+  obtain ⟨hj, hd, hmin⟩ := nearest_spec c p.p j d hjd
+  have h0 : d ≤ 0 := by have := hmin p hp; rwa [V3.d2_self] at this
+  have h1 : 0 ≤ d := by rw [hd]; exact V3.d2_nonneg _ _
+  have hz : d = 0 := le_antisymm h0 h1
+  have hpos : p.p = c[j].p := V3.eq_of_d2_zero _ _ (by rw [← hd]; exact hz)
+  have : c[j] = p := nodup_map_inj (·.p) c hnd _ _ (List.getElem_mem hj) hp hpos.symm
+  exact ⟨j, hj, by rw [hjd, hz], this⟩
+
+theorem absR_one : absR 1 = 1 := by unfold absR; simp
+
+/-- Matching a cloud against itself: every point finds itself (`distance_upper_bound`, if any, is
+non-zero after `effBound`, so distance 0 is always a hit). -/
+theorem matchPoint_self (c : Cloud) (hnd : (c.map (·.p)).Nodup) (bound : Option Rat) (p : Pt) (hp : p ∈ c) :
+    ∃ j, matchPoint c bound p = some ⟨0, absR (p.v.dot p.v), p.a * p.a, true, j⟩ := by
+  obtain ⟨j, hj, hn, hc⟩ := nearest_self c hnd p hp
+  refine ⟨j, ?_⟩
+  unfold matchPoint
+  rw [hn]
+  have hget : c.getD j default = p := by
+    rw [List.getD_eq_getElem?_getD, List.getElem?_eq_getElem hj]; simpa using hc
+  simp only [hget]
+  cases hb : effBound bound with
+  | none => rfl
+  | some b =>
+    simp only
+    have hb0 : b ≠ 0 := by
+      unfold effBound at hb
+      cases bound with
+      | none => simp at hb
+      | some b' =>
+        simp only at hb
+        split at hb
+        · cases hb
+        · cases hb; assumption
+    have : (0 : Rat) < b * b := by
+      rcases lt_or_gt_of_ne hb0 with h | h <;> nlinarith
+    simp [this]
+
 end Navis.Nblast
